@@ -10,6 +10,16 @@ NOTES = ("All checks: `harness/check.py Cxx`. Each run re-extracts Generated/*.l
 NOT_APPLICABLE = {}
 
 CHECKS = {
+    "C13": {
+        "text": ("Lean theorems about a method-by-method model of SchemaValidator: validate_iff/accepts_iff (no error <=> ValidSchema), "
+                 "subtype_iff about Schema.is_subtype TRANSLATED from source on every run, perm_types, reports_all, "
+                 "cache_sound over all histories of validate/register_* (replace_types partial + machine-checked refutation, ledger T3), "
+                 "name_iff about the extracted VALID_NAME_RE classes; tied by correspondence (verdict + set of reporting rules) on "
+                 "generated schemas with labelled violations, permutations and cache histories, and the labelled direct oracle."),
+        "note": ("Trusted: Lean kernel; py2lean translator; extraction of name classes and rule format strings (used only to attribute errors); "
+                 "inspect.signature, build_schema and fix_type_references are exercised, not modelled; direct assignment field.resolver=f is outside the statement."),
+        "technique": "Lean 4 proof over hand model + source-translated is_subtype + labelled-violation correspondence",
+    },
     "C20": {
         "text": ("Lean theorems about the safe-change predicates TRANSLATED from differ/__init__.py on every run "
                  "(safeIn_iff: exact for all type expressions; safeOut_iff_partial + machine-checked refutation of the "
